@@ -510,6 +510,32 @@ UNSUPPORTED_REFACTORS = {
                  "iterator lengths, which the runner rule (identical loop over the same range in both branches) does not decide",
     "agents-5": "momentum direction routed through a helper returning Option<Side> and matched later: the sign case analysis does not yet "
                 "correlate the Option<Side> alternatives with the sign tests that built them",
+    # -- second corpus (rf2-*)
+    "rf2-agents-4": "the placement helper is passed around as a fn pointer: the C16 ownership / discharge rules resolve direct calls only",
+    "rf2-agents-5": "same shape as agents-5 (Option<Side> helper matched later)",
+    "rf2-agents-6": "random-agent draws moved into an OrderSampler struct field: the per-slot model reads the draw bounds from the agent's own fields",
+    "rf2-book1-4": "changes the trade writer's contract (returns a Fill struct, volume decrement in a helper): the trade-writer summary the "
+                   "typestate interprets is an explicit table",
+    "rf2-book1-5": "moves the stamp counter into a serialised QueueClock struct: the snapshot format changes (C07's writer/reader tables differ "
+                   "from the recorded ones) and the stamp role is discovered by field type",
+    "rf2-book2-1": "tick test through a Result-returning helper used as `is_some_and(|p| check(p).is_err())`: the case analysis does not "
+                   "summarise Result-returning predicates",
+    "rf2-book2-2": "side index reached through `&mut dyn SideFunctionality`: side-op calls are resolved by the impl type",
+    "rf2-book2-3": "level map values become a Level struct: the lock-step rules read the (volume, count) pair by tuple position",
+    "rf2-book2-4": "BidSide/AskSide replaced by one generic OrientedSide<const BID>: role discovery anchors on the two impl types",
+    "rf2-env-6": "Env::step written as a for_each chain over the drained queue: the step model recognises take-and-iterate loops",
+    # -- repaired round-3 refactorings (r3fix-*)
+    "r3fix-c07": "the loader re-derives each key from the order's side and price instead of re-filing the stored key: not identical to HEAD on "
+                 "inconsistent snapshots, and the loader rule demands the stored key",
+    "r3fix-c09": "cancellation selection moved into a helper returning a Vec: the C16 cancel rule knows the partition(filter(..)) idiom",
+    "r3fix-c10": "the snapshot refresh is restricted to assets that received instructions: equivalent only by the invariant that an untouched "
+                 "book's market data does not change, which no rule here establishes (the snapshot rule demands an unconditional refresh)",
+    "r3fix-c15": "the instruction queue becomes a VecDeque drained with pop_front: the step model recognises mem::take + iteration",
+    "r3fix-c16": "every activity draw becomes Bernoulli::new(p).sample(..) behind a helper: not one of the accepted draw idioms "
+                 "(gen::<float>() < p, gen_bool(p)); it also changes the random stream, so it is not trace-equivalent to HEAD",
+    "r3fix-c17": "the momentum side is decided once and passed to side-parametric placement sites: the sign rule is per constant-side site",
+    "r3fix-c19": "the flattened observation is built by an iterator chain (zip/skip/flat_map/chain/collect): the array model interprets loops "
+                 "and from_fn",
 }
 for _f in sorted(_glob.glob(_os.path.join(_os.path.dirname(_os.path.abspath(__file__)), "refactors", "*.diff"))):
     _n = _os.path.basename(_f)[:-5]
